@@ -40,7 +40,7 @@ type cf struct {
 type cfCtx struct {
 	loop, sw, shadow bool
 	core             bool // core alphabet only
-	mini             int  // 0: no further restriction; 1: {M, R, if, if/else}; 2: {M, R, B, C, if/else, loop+continuing}; 3: {M, B, C, plain loop, single-clause switch}
+	mini             int  // 0: no further restriction; 1: {M, R, if, if/else}; 2: {M, R, B, C, if/else, loop+continuing}; 3: {M, B, C, plain loop, single-clause switch}; 4: {M, H (helper call), B, C, if, if/else, loop whose continuing block is itself a statement list, followed by break-if}
 }
 
 func (c cfCtx) key(n int) int {
@@ -49,7 +49,7 @@ func (c cfCtx) key(n int) int {
 	k = k*2 + b2i(c.sw)
 	k = k*2 + b2i(c.shadow)
 	k = k*2 + b2i(c.core)
-	k = k*4 + c.mini
+	k = k*8 + c.mini
 	return k
 }
 func b2i(b bool) int {
@@ -156,6 +156,25 @@ func (e *cfEnum) stmtsOf(a int, c cfCtx) []*cf {
 	var out []*cf
 	inner := cfCtx{loop: c.loop, sw: c.sw, shadow: true, core: c.core, mini: c.mini}
 	if c.mini != 0 {
+		if c.mini == 4 {
+			if a == 1 {
+				out = append(out, leafMark, leafCall)
+				if c.loop {
+					out = append(out, leafBreak, leafContinue)
+				}
+			}
+			if a >= 1 {
+				out = append(out, e.compound(cfIf, 0, a-1, []cfCtx{inner})...)
+				out = append(out, e.compound(cfIfElse, 0, a-1, []cfCtx{inner, inner})...)
+				// loop body (break/continue allowed) and continuing block (a statement list of its own: no break or
+				// continue of this loop at any depth outside a nested loop, as WGSL requires)
+				lc := cfCtx{loop: true, shadow: true, core: c.core, mini: 4}
+				cc := cfCtx{loop: false, shadow: true, core: c.core, mini: 4}
+				out = append(out, e.compound(cfLoop, 4, a-1, []cfCtx{lc, cc})...)
+			}
+			e.stmts[k] = out
+			return out
+		}
 		if c.mini == 3 {
 			if a == 1 {
 				out = append(out, leafMark)
@@ -410,13 +429,19 @@ func (b *f2b) stmt(s *cf) []Stmt {
 		}
 		body = append(body, b.list(s.kids[0])...)
 		lp := &Loop{Body: body}
-		if s.variant&1 != 0 {
+		if s.variant == 4 {
 			lp.HasCont = true
-			lp.Continuing = []Stmt{b.mark()}
-		}
-		if s.variant&2 != 0 {
-			lp.HasCont = true
+			lp.Continuing = b.list(s.kids[1])
 			lp.BreakIf = b.cond()
+		} else {
+			if s.variant&1 != 0 {
+				lp.HasCont = true
+				lp.Continuing = []Stmt{b.mark()}
+			}
+			if s.variant&2 != 0 {
+				lp.HasCont = true
+				lp.BreakIf = b.cond()
+			}
 		}
 		return []Stmt{pre, lp}
 	case cfFor:
@@ -484,13 +509,19 @@ func buildF2(tree []*cf, pos string, loopMarks bool) *Case {
 		Global{Name: "inp", Space: "storage", Ty: inT, Group: 0, Binding: 0},
 		Global{Name: "out", Space: "storage", RW: true, Ty: outT, Group: 0, Binding: 1},
 		Global{Name: "acc", Space: "private", Ty: TU32},
+		Global{Name: "hcalls", Space: "private", Ty: TU32},
 	)
 	gi := L("gi", TU32)
 	b := &f2b{pos: pos, nextID: 0, loopMarks: loopMarks}
 	accPriv := func() Expr { return V("acc", TU32) }
 	accOut := func() Expr { return Idx(V("out", outT), gi) }
 	// helper h: touches acc (private) in all positions
+	// h also keeps a counter of its own in a private variable that nothing else names: the only static path to
+	// that global is the call of h, wherever the tree places it
+	hx := func() Expr { return V("hcalls", TU32) }
 	h := &Func{Name: "h", Params: []Param{{Name: "x", Ty: TU32}}, Body: []Stmt{
+		&Assign{LHS: hx(), Op: "=", RHS: &Bin{Op: "+", L: hx(), R: LitU(1), Ty: TU32}},
+		&Assign{LHS: accPriv(), Op: "=", RHS: &Bin{Op: "+", L: accPriv(), R: hx(), Ty: TU32}},
 		&If{Cond: &Bin{Op: "==", L: L("x", TU32), R: LitU(1), Ty: TBool}, Then: []Stmt{
 			&Assign{LHS: accPriv(), Op: "=", RHS: &Bin{Op: "+", L: &Bin{Op: "*", L: accPriv(), R: LitU(31), Ty: TU32}, R: LitU(1000), Ty: TU32}},
 			&Return{},
@@ -565,7 +596,7 @@ func F2Mini(k, mini int) *Family {
 	trees := F2TreesMini(k, mini)
 	name := fmt.Sprintf("F2m%dk%d", mini, k)
 	return &Family{Name: name, Count: len(trees) * len(f2Positions), At: func(i int) *Case {
-		c := buildF2(trees[i/len(f2Positions)], f2Positions[i%len(f2Positions)], mini == 3)
+		c := buildF2(trees[i/len(f2Positions)], f2Positions[i%len(f2Positions)], mini >= 3)
 		c.Family, c.Index = name, i
 		return c
 	}}
